@@ -4,6 +4,9 @@ import ClipVerif.Proofs.WindIx
 import ClipVerif.Proofs.Sweep
 import ClipVerif.Model.Vertex
 import ClipVerif.Proofs.Vertex
+import ClipVerif.Model.AelOrder
+import ClipVerif.Model.Conv
+import ClipVerif.Proofs.AelOrder
 /-
 C01 — boolean operations return the set-theoretic region.  Proved here: the local decisions of the
 sweep (everything the engine *decides* from winding counts); the global composition of the sweep is
@@ -103,7 +106,7 @@ example : AelOK 1 []
       { windDx := -1, windCount := 1, windCount2 := 1, localMin := { PolyType := 0, IsOpen := false } } ] := by
   simp [AelOK, Proofs.Wind.edgeOK_nonEO, Proofs.Wind.windRight_cons, Proofs.Wind.windRight_nil,
     isClosedOf, Proofs.Wind.getPolyType_eq, Proofs.Wind.isOpen_eq, encSides, Spec.encWind]
-  decide
+  all_goals decide
 
 /-! ### Vertex rings and local minima (model `Model.vertexRing` of `addPathsToVertexList`, tied by `models-corr vertex`) -/
 
@@ -158,5 +161,61 @@ theorem sweep_invariant (ct fr : Nat) (hct : ct = 1 ∨ ct = 2 ∨ ct = 3 ∨ ct
 example : ([SweepOp.insert 0 0 1, SweepOp.insert 1 1 1, SweepOp.swap 1 true false].foldl (sweepStep 2 1) []).length = 4 := by
   exact Proofs.Sweep.example_len
 
+
+
+/-! ### Order of the active-edge list (`isValidAelOrder`, `insertLeftEdge`; model `Model.AelOrder`, tied by
+`models-corr aelins`).  `sweep_invariant` above lets a local minimum be inserted anywhere; these
+theorems say where the code puts it. -/
+
+/-- x of the edge's line at height `y` (exact) -/
+def xAt (e : AelEdge) (y : Rat) : Rat :=
+  (e.bot.X.toInt : Rat) + ((e.top.X.toInt : Rat) - e.bot.X.toInt) * (y - e.bot.Y.toInt) / ((e.top.Y.toInt : Rat) - e.bot.Y.toInt)
+
+/-- two edges leaving the same vertex in different directions (the ordinary case at a local minimum,
+    and whenever a newcomer starts on a resident's vertex): the newcomer is accepted to the right of the
+    resident exactly when it IS to the right of it everywhere above the scanline up to the lower of the
+    two tops — for all coordinates within the 2^29 domain -/
+theorem isValidAelOrder_geometric (r n : AelEdge)
+    (hb : r.bot = n.bot) (hx : r.curX = n.curX)
+    (hrb : r.bot.inRange) (hrt : r.top.inRange) (hnt : n.top.inRange)
+    (hr : r.top.Y.toInt < r.bot.Y.toInt) (hn : n.top.Y.toInt < n.bot.Y.toInt)
+    (hd : crossZ r.top n.bot n.top ≠ 0) :
+    isValidAelOrder r n = true ↔
+      ∀ y : Rat, (r.top.Y.toInt : Rat) ≤ y → (n.top.Y.toInt : Rat) ≤ y → y < (n.bot.Y.toInt : Rat) → xAt r y < xAt n y := by
+  unfold xAt
+  exact Proofs.AelOrder.geometric r n hb hx hrb hrt hnt hr hn hd
+
+/-- different x at the scanline: the larger x goes to the right, whatever else the edges look like -/
+theorem isValidAelOrder_by_curX (r n : AelEdge) (h : n.curX ≠ r.curX) :
+    isValidAelOrder r n = decide (n.curX.toInt > r.curX.toInt) := by
+  exact Proofs.AelOrder.by_curX r n h
+
+/-- where `insertLeftEdge` puts the newcomer: the list is split in two, untouched; every resident now
+    left of the newcomer accepted it on its right; the resident now right of it (if any) refused it —
+    unless the edge left of the gap is joined to its right neighbour, in which case the newcomer goes
+    one place further right -/
+theorem insertLeftEdge_position (ael : List AelEdge) (ae : AelEdge) (res : List AelEdge)
+    (h : insertLeftEdge ael ae = some res) :
+    ∃ l1 l2, ael = l1 ++ l2 ∧ res = l1 ++ ae :: l2 ∧
+      ((∀ e ∈ l1, isValidAelOrder e ae = true) ∧ (∀ x, l2.head? = some x → isValidAelOrder x ae = false)
+       ∨ (∃ l0 j x, l1 = l0 ++ [j, x] ∧ j.joinRight = true ∧ (∀ e ∈ l0 ++ [j], isValidAelOrder e ae = true) ∧
+            isValidAelOrder x ae = false)) := by
+  exact Proofs.AelOrder.position ael ae res h
+
+/-- the only fault: the resident after which the newcomer belongs is joined to a right neighbour that
+    does not exist (the engine never leaves a JoinRight edge at the end of the list) -/
+theorem insertLeftEdge_total (ael : List AelEdge) (ae : AelEdge)
+    (hj : ∀ l1 j, ael = l1 ++ [j] → j.joinRight = false) :
+    ∃ res, insertLeftEdge ael ae = some res := by
+  exact Proofs.AelOrder.total ael ae hj
+
+/-- an active-edge list ordered by x at the scanline stays ordered when a local minimum's edge is
+    inserted (no joined pair at the insertion point) -/
+theorem insertLeftEdge_sorted (ael : List AelEdge) (ae : AelEdge) (res : List AelEdge)
+    (hs : ael.Pairwise (fun a b => a.curX.toInt ≤ b.curX.toInt))
+    (hj : ∀ e ∈ ael, e.joinRight = false)
+    (h : insertLeftEdge ael ae = some res) :
+    res.Pairwise (fun a b => a.curX.toInt ≤ b.curX.toInt) := by
+  exact Proofs.AelOrder.sorted ael ae res hs hj h
 
 end C01
